@@ -17,7 +17,9 @@ EXPLANATION = (
     "branch order); C01.4 the returned observation is self.observation of the RETURNED (post-selection) state; info is "
     "transition_info of the transition taken; C01.5 reset returns (S, observation(S), state_info(S)) with S = self.initial(); C01.7 "
     "every wrapper's initial() wraps self.env.initial(key) and sets every other state field to a literal (TimeLimit: step_count = 0); "
-    "C01.8 the Gymnasium adapter stores element 0 of the same step/reset call whose other elements it returns."
+    "C01.9 on wrapper stacks the composed signals are the inner environment's: every exported wrapper's initial / transition / observation / reward / "
+    "terminal / truncate delegates to the inner method (with only its declared transformation) and TimeLimit's truncate is inner truncate | count >= N with the count "
+    "restarting at 0 and advancing by 1; C01.8 the Gymnasium adapter stores element 0 of the same step/reset call whose other elements it returns."
 )
 ASSUMPTIONS = [
     "lax.cond selects its first branch when the predicate is true", "correctness of the functional components (transition, reward, ...) is not decided here",
@@ -162,5 +164,12 @@ def check(s):
         calls = [c for c in walk(pr.ret) if isinstance(c, tuple) and c and c[0] == "call" and c[1] == ("attr", ("attr", self_, "env"), "reset")]
         s.ob("C01.8", "LeraxToGymEnv.reset", len(calls) == 1 and pr.self_attrs.get("state") == ("item", calls[0], 0), "reset stores element 0 of the env.reset call it reports", s.loc("LeraxToGymEnv", "reset"),
              key="gym-adapter-reset", detail=show(pr.self_attrs.get("state", NONE), maxlen=120))
-    for r_, n_ in (("C01.1", 3), ("C01.2", 2), ("C01.3", 2), ("C01.4", 2), ("C01.5", 1), ("C01.6", 2), ("C01.7", 11), ("C01.8", 3)):
+    # ---------------------------------------------------------------- C01.9 wrapper stacks: the signals step composes
+    # step calls self.transition / reward / terminal / truncate / observation / initial; on a wrapper stack these are the wrapper's
+    # methods, so "the flags of exactly the transition taken" needs every wrapper to hand the inner signal through (TimeLimit: OR-ed
+    # with its own count, which restarts at 0 and advances by one).
+    from .C13 import check_delegation, check_timelimit
+    check_delegation(s, "C01.9", ["initial", "transition", "observation", "reward", "terminal", "truncate"])
+    check_timelimit(s, "C01.9")
+    for r_, n_ in (("C01.1", 3), ("C01.2", 2), ("C01.3", 2), ("C01.4", 2), ("C01.5", 1), ("C01.6", 2), ("C01.7", 11), ("C01.8", 3), ("C01.9", 70)):
         s.floor(r_, n_)
